@@ -364,6 +364,29 @@ func buildDRA(seed int64, par int64) *draWorld {
 		addIn(s, cwMig, "cluster-wide partitionable")
 		w.kinds["cluster-partitionable"] = true
 	}
+	// a node-local partitionable card (counter set and devices in slices pinned to the node by spec.nodeName), one of whose
+	// devices is multi-allocatable AND draws from the shared counters
+	var nlShared *devSpec
+	if rng.Intn(100) < 35 {
+		budget := map[string]map[string]resource.Quantity{"nlcard": {cntMem: q("40Gi"), cntCmp: q("8")}}
+		w.counters[drvMIG+"|nl-mig"] = budget
+		cs := slice(w.nodeName+"-mig-counters", drvMIG, "nl-mig", 2, nil)
+		cs.Spec.SharedCounters = counterSetsOf(budget)
+		cs.Spec.NodeName = &w.nodeName
+		e.Apply(cs)
+		devs := migDevices(rng, drvMIG, "nl-mig", "nlmig", "nlcard")
+		nlShared = &devSpec{Driver: drvMIG, Pool: "nl-mig", Name: "nlmig-shared", Shared: true, Attrs: map[string]string{"profile": "shared"},
+			Capacity: map[string]resource.Quantity{dimMem: q("30Gi")},
+			Consumes: map[string]map[string]resource.Quantity{"nlcard": {cntMem: q([]string{"20Gi", "30Gi"}[rng.Intn(2)]), cntCmp: q("4")}}}
+		devs = append(devs, nlShared)
+		for _, d := range devs {
+			d.Node = w.nodeName
+		}
+		s := slice(w.nodeName+"-mig-devices", drvMIG, "nl-mig", 2, devs)
+		s.Spec.NodeName = &w.nodeName
+		addIn(s, devs, "node-local partitionable (one device multi-allocatable and counter-consuming)")
+		w.kinds["node-local-partitionable"] = true
+	}
 	// ---- device classes
 	for name, drv := range map[string]string{"gpu": drvGPU, "vgpu": drvVGPU, "mig": drvMIG} {
 		e.Apply(&resourcev1.DeviceClass{ObjectMeta: metav1.ObjectMeta{Name: name},
@@ -402,6 +425,10 @@ func buildDRA(seed int64, par int64) *draWorld {
 	if len(cwMig) > 0 && rng.Intn(100) < 50 {
 		preClaim("pre-mig", cwMig[rng.Intn(len(cwMig))], nil)
 		w.kinds["prealloc-partition"] = true
+	}
+	if nlShared != nil && rng.Intn(100) < 70 {
+		preClaim("pre-nlmig-shared", nlShared, map[string]resource.Quantity{dimMem: q([]string{"4Gi", "8Gi"}[rng.Intn(2)])})
+		w.kinds["prealloc-shared-counter-consuming"] = true
 	}
 	// ---- unallocated claims and the pod batch
 	newClaim := func(name string) *resourcev1.ResourceClaim {
@@ -867,15 +894,30 @@ func (w *draWorld) judge(r *mon.Report, res provscheduling.Results, cs map[strin
 			for cname, total := range cnts {
 				r.Inc("dra_counters_checked")
 				sum := resource.Quantity{}
+				countedShared := map[string]bool{}
 				if !as[0].template {
 					for dk := range w.preExcl {
 						if pd := w.inCluster[dk]; pd != nil && pd.Driver+"|"+pd.Pool == sc.pool {
 							sum.Add(pd.Consumes[set][cname])
 						}
 					}
+					// an in-use multi-allocatable device draws from the counters as well (once, however many claims share it)
+					for dk := range w.preShared {
+						if pd := w.inCluster[dk]; pd != nil && pd.Driver+"|"+pd.Pool == sc.pool && len(pd.Consumes) > 0 {
+							sum.Add(pd.Consumes[set][cname])
+							countedShared[dk] = true
+						}
+					}
 				}
 				perNC := map[string]map[string]resource.Quantity{}
 				for _, a := range as {
+					if a.dev.Shared {
+						// a multi-allocatable device consumes its counters once: skip further allocations of one already counted
+						if countedShared[a.dev.key()] {
+							continue
+						}
+						countedShared[a.dev.key()] = true
+					}
 					if perNC[a.nc] == nil {
 						perNC[a.nc] = map[string]resource.Quantity{}
 					}
